@@ -216,6 +216,13 @@ where
         Ok(())
     }
 
+    /// Verification hook: run one `process_batch` from outside the crate.
+    /// Exists only with `--cfg d_engine_verif`.
+    #[cfg(d_engine_verif)]
+    pub async fn verif_process_batch(&self) -> Result<()> {
+        self.process_batch().await
+    }
+
     /// Check if configuration change is a self-removal
     ///
     /// Returns true if the change is RemoveNode(my_id), indicating
